@@ -2,7 +2,7 @@
 
 Space: every rooted digraph on 1..3 labelled nodes x every assignment of one of nine statement lists to each node
   { (), use r, def r, use r;def r, def r;use r, def r;def r, r=f(r), use q, def q }
-x parameter lists { (), (r), (q, r) } x graph.exit in { None, each node };  every <= 2-node graph with catch edges x the
+x parameter lists { (), (r), (q, r) } x graph.exit in { None, each node } (quick, 3 nodes: { None, last node });  every <= 2-node graph with catch edges x the
 same;  thorough adds 4 nodes x { (), def r, use r } x { (), (r) } x exits, 3-node catch graphs over that small alphabet.
 Every method of the shipped DEX files (real instructions) is run as well.
 Each case is a REAL `Graph` of real StatementBlocks holding stub instructions (get_used_vars / get_lhs); the real
@@ -75,7 +75,8 @@ def space(ctx):
     return {"nodes": [1, 2, 3] + ([4] if ctx.thorough else []),
             "statement_alphabet": NAMES9,
             "small_alphabet_for_4_nodes_and_3_node_catch_graphs": [NAMES9[i] for i in ALPHA3],
-            "params": ["()", "(r)", "(q, r)"], "exit": "None or each node",
+            "params": ["()", "(r)", "(q, r)"],
+            "exit": "None or each node" if ctx.thorough else "None or each node (n <= 2); None or the last node (n = 3)",
             "catch_graph_nodes": [1, 2] + ([3] if ctx.thorough else []),
             "dex_files": D.DEX_FILES}
 
@@ -183,7 +184,7 @@ def one_case(n, nodes, edges, codes, params, exit_idx):
     return bad, st, stmts, preds
 
 
-def explore_graph(acc, n, nodes, edges, alpha, plist, fam):
+def explore_graph(acc, n, nodes, edges, alpha, plist, fam, all_exits=True):
     rows = G.rows_of_edges(n, edges)
     reach = G.closure(n, rows)
     cyclic = any((reach[v] >> v) & 1 for v in range(n))
@@ -193,7 +194,7 @@ def explore_graph(acc, n, nodes, edges, alpha, plist, fam):
         acc.count("graphs_with_cycle")
     for codes in itertools.product(alpha, repeat=n):
         for params in plist:
-            for exit_idx in [None] + list(range(n)):
+            for exit_idx in ([None] + list(range(n)) if all_exits or n < 3 else [None, n - 1]):
                 bad, (multi, partial, nuses), stmts, preds = one_case(n, nodes, edges, codes, params, exit_idx)
                 acc.n += 1
                 if multi or partial:
@@ -224,7 +225,7 @@ def run_shard(ctx, shard):
     nodes = D.make_nodes(n)
     if kind == "bin":
         for mask in G.rooted_masks(n, shard[2], shard[3]):
-            explore_graph(acc, n, nodes, G.edge_list(n, mask), alpha, plist, "bin")
+            explore_graph(acc, n, nodes, G.edge_list(n, mask), alpha, plist, "bin", ctx.thorough)
         if n == 3 and shard[2] == 0o730:
             acc.sample({"n": 3, "edges": G.edge_list(3, 0o736), "stmts": ["def r", "r=f(r)", "use r"], "params": [R],
                         "exit": 2})
@@ -232,7 +233,7 @@ def run_shard(ctx, shard):
         for i, edges in enumerate(G.rooted_tri(n)):
             if i % shard[3] != shard[2] or not any(e[2] == "c" for e in edges):
                 continue
-            explore_graph(acc, n, nodes, edges, alpha, plist, "tri")
+            explore_graph(acc, n, nodes, edges, alpha, plist, "tri", ctx.thorough)
             acc.count("graphs_with_catch_edge")
     return acc
 
